@@ -580,6 +580,11 @@ class Interp:
         if 'enum' in j:
             e = j['enum']
             return agg(e['adt'], e['variant'], e['vi'], ())
+        if 'option' in j:
+            if j['option'] is None:
+                return NONE
+            x = self.decode_const(j['option'])
+            return None if x is None else SOME(('constref', x))
         if 'tuple' in j:
             xs = [self.decode_const(x) for x in j['tuple']]
             return None if any(x is None for x in xs) else agg('tuple', '', 0, [(str(i), x) for i, x in enumerate(xs)])
